@@ -57,7 +57,31 @@ type treeDump struct {
 	walk    map[int]string // per version: hash + tree-walk contents
 	served  map[int]string // per version: contents through Iterator / Get (index-served where enabled)
 	working string         // working tree through the tree walk
-	wserved string         // working tree through Iterator / Get
+	wserved string         // working tree through Iterator
+	wgets   map[string]string // working tree Get per key of any listed version
+	vkeys   map[int][]string  // keys of each listed version
+}
+
+// working-tree point reads for the keys of the versions accepted by keep
+func (d treeDump) wgetsFor(keep func(v int) bool) string {
+	seen := map[string]bool{}
+	var ks []string
+	for _, v := range d.avail {
+		if keep(v) {
+			for _, k := range d.vkeys[v] {
+				if !seen[k] {
+					seen[k] = true
+					ks = append(ks, k)
+				}
+			}
+		}
+	}
+	sort.Strings(ks)
+	var sb strings.Builder
+	for _, k := range ks {
+		fmt.Fprintf(&sb, ";wget:%x=%s", k, d.wgets[k])
+	}
+	return sb.String()
 }
 
 func (d treeDump) String() string {
@@ -66,7 +90,7 @@ func (d treeDump) String() string {
 	for _, v := range d.avail {
 		fmt.Fprintf(&sb, "v%d=%s|%s;", v, d.walk[v], d.served[v])
 	}
-	fmt.Fprintf(&sb, "w=%s|%s", d.working, d.wserved)
+	fmt.Fprintf(&sb, "w=%s|%s%s", d.working, d.wserved, d.wgetsFor(func(int) bool { return true }))
 	return sb.String()
 }
 
@@ -89,12 +113,12 @@ func (d treeDump) above(n int) string {
 			fmt.Fprintf(&sb, "v%d=%s|%s;", v, d.walk[v], d.served[v])
 		}
 	}
-	fmt.Fprintf(&sb, "w=%s|%s", d.working, d.wserved)
+	fmt.Fprintf(&sb, "w=%s|%s%s", d.working, d.wserved, d.wgetsFor(func(v int) bool { return v > n }))
 	return sb.String()
 }
 
 func dumpTree(t *iavl.MutableTree) treeDump {
-	d := treeDump{walk: map[int]string{}, served: map[int]string{}}
+	d := treeDump{walk: map[int]string{}, served: map[int]string{}, wgets: map[string]string{}, vkeys: map[int][]string{}}
 	d.avail = t.AvailableVersions()
 	keys := map[string]bool{}
 	for _, v := range d.avail {
@@ -107,6 +131,7 @@ func dumpTree(t *iavl.MutableTree) treeDump {
 		stoppedEarly := im.IterateRange(nil, nil, true, func(k, val []byte) bool {
 			walk = append(walk, kv{append([]byte{}, k...), append([]byte{}, val...)})
 			keys[string(k)] = true
+			d.vkeys[v] = append(d.vkeys[v], string(k))
 			return false
 		})
 		_ = stoppedEarly
@@ -148,9 +173,9 @@ func dumpTree(t *iavl.MutableTree) treeDump {
 	for _, k := range ks {
 		val, err := t.Get([]byte(k))
 		if err != nil {
-			fmt.Fprintf(&sb, ";wget:%x=ERR", k)
+			d.wgets[k] = "ERR"
 		} else {
-			fmt.Fprintf(&sb, ";wget:%x=%x", k, val)
+			d.wgets[k] = fmt.Sprintf("%x", val)
 		}
 	}
 	d.wserved = sb.String()
@@ -268,6 +293,16 @@ func (s *Sys) execCrash(op []string) string {
 		d2 := dumpTree(t2).String()
 		_ = t2.Close()
 		if d2 != newD {
+			if os.Getenv("VERIF_DEBUG") != "" {
+				fmt.Fprintf(os.Stderr, "DEBUG retrydiffers at %d/%d\nNEWAVAIL %v\nGOTAVAIL %s\nWRITES:", i, n, newT.avail, d2[:60])
+				for j, w := range writes {
+					fmt.Fprintf(os.Stderr, "\n [%d]", j)
+					for _, o := range w {
+						fmt.Fprintf(os.Stderr, " %v:%x", o.del, o.k)
+					}
+				}
+				fmt.Fprintln(os.Stderr)
+			}
 			return fmt.Sprintf("cr(viol,op=%s,i=%d/%d,kind=retrydiffers);%s", op[0], i, n, res)
 		}
 	}
